@@ -914,8 +914,11 @@ pub trait StoreFor<T: Storable>: Configurable + private::StoreCallbacks<T> {
                 //(a temporary id only resolves for the type its letter stands for)
                 if let Some(number) = resolve_temp_id(id) {
                     let handle = T::HandleType::new(number);
-                    //(a number that does not fit the handle type is not the temporary id of any item)
-                    if handle.as_usize() == number {
+                    //(a number that does not fit the handle type is not the temporary id of any item,
+                    // nor is the number of a slot that holds nothing)
+                    if handle.as_usize() == number
+                        && matches!(self.store().get(number), Some(Some(_)))
+                    {
                         return Ok(handle);
                     }
                 }
